@@ -221,7 +221,7 @@ CHECKS = {
         "For each option (quick: 12 representative incl. bool, countable, int, choice and every structured type; thorough: all 56 fields) every stack of <= 4 (thorough 5) layers over {config file, contract annotation, function annotation, "
         "command line}, each built by the real argparse/TOML parsers and setting the option or not with values that include the falsy ones (0, empty string, '*', false), is resolved and compared with the reference fold (source rank, then recency). "
         "--solver-command vs --solver over all source pairs and both application orders. Every value of the structured grammars (timeouts with units and fractions, error-code sets, array-length maps, CSV lists, trace events) round-trips through "
-        "unparse/parse and through the `python -m halmos.config` TOML emission + TomlParser; native (non-string) TOML values must mean what the same text means on the command line or be rejected; contract-level annotations are written in every documented layout (continuation lines, mid-line tags, several tags); 58 malformed strings must be rejected by the parser, the command line and the config file. Annotation scoping: generated projects with every subset of "
+        "unparse/parse and through the `python -m halmos.config` TOML emission + TomlParser; native (non-string) TOML values must mean what the same text means on the command line or be rejected; contract-level annotations are written in every documented layout (continuation lines, mid-line tags, several tags); 77 malformed strings must be rejected by the parser, the command line and the config file, and so must wrong-typed or out-of-choice config-file values of 12 plain options (a string for a flag, a list for an integer, an unknown layout / solver name). Annotation scoping: generated projects with every subset of "
         "five annotation placements over two contracts that share function signatures x toml x command line are run through halmos.__main__._main (stub forge) and the configuration every setUp()/test actually receives - value and the source it is attributed to - is compared with the fold.",
         "Trusted: the reference fold (Appendix B.4) and the option value tables in props/c18_config.py. The scoping observation rebinds halmos.__main__.run_test/setup in the harness process (no source hook).",
         "DESIGN.md §4 C18",
